@@ -10,7 +10,7 @@ ctor keys (interpreted by `make`, exported by `cfg_record`):
               "randperm" (injection: a uniformly random arrangement drawn from the reset key)
   n           grid size
   moves       num_random_moves of the RandomWalkGenerator
-  time_limit  int
+  time_limit  int, or None = not passed (documented default 500)
   reward      "dense" | "sparse"
 The environment stepped in lock-step (`make_alt`) is the same puzzle with the OTHER reward function.
 """
@@ -207,7 +207,7 @@ class Adapter(EnvAdapter):
     def configs(self, tier):
         if tier == "quick":
             return [
-                _c("default5", "default", 5, episodes=2, max_steps=40, policies=["random", "mostly_masked"]),
+                _c("default5", "default", 5, episodes=2, max_steps=24, policies=["random", "mostly_masked"]),
                 _c("n3_dense", "random_walk", 3, 20, episodes=6, max_steps=34, policies=SOLVE),
                 _c("n3_sparse", "random_walk", 3, 15, reward="sparse", episodes=4, max_steps=30, policies=SOLVE),
                 _c("n2_dense", "random_walk", 2, 7, episodes=8, max_steps=12, policies=SOLVE),
@@ -222,6 +222,8 @@ class Adapter(EnvAdapter):
                 _c("n2_t3", "random_walk", 2, 6, tl=3, episodes=8, max_steps=6, policies=LIMIT),
                 _c("n4_t7", "random_walk", 4, 30, tl=7, episodes=5, max_steps=10, policies=LIMIT),
                 _c("n5_t3", "random_walk", 5, 50, tl=3, episodes=4, max_steps=6, policies=LIMIT),
+                _c("n2_tdefault", "random_walk", 2, 9, tl=None, episodes=1, max_steps=503, probe_every=25,
+                   policies=["survive"]),
                 # state injection: the ENTIRE 2x2 arrangement space (24 boards) x 4 actions, a sample of the 3x3 space
                 _c("inject2x2", "enum", 2, episodes=24, max_steps=2, stride=1, policies=["masked"], props=INJ_PROPS),
                 _c("inject3x3", "enum", 3, episodes=110, max_steps=2, stride=3299, policies=["masked"], props=INJ_PROPS),
@@ -246,6 +248,8 @@ class Adapter(EnvAdapter):
             out.append(_c(f"n{n}_k200", "random_walk", n, 200, episodes=10, max_steps=40,
                           policies=["solve", "random", "mostly_masked"] if n <= 3 else ["random", "mostly_masked"]))
         out.append(_c("n3_dense_t500", "random_walk", 3, 31, tl=500, episodes=3, max_steps=503, probe_every=7,
+                      policies=["survive"]))
+        out.append(_c("n2_tdefault", "random_walk", 2, 9, tl=None, episodes=3, max_steps=503, probe_every=11,
                       policies=["survive"]))
         out += [
             _c("inject2x2", "enum", 2, episodes=24, max_steps=2, stride=1, policies=["masked"], props=INJ_PROPS),
@@ -283,6 +287,8 @@ class Adapter(EnvAdapter):
             if reward == "dense":
                 return SlidingTilePuzzle()          # everything left to the documented defaults
             return SlidingTilePuzzle(reward_fn=rf)  # the lock-step twin of the default environment
+        if ct["time_limit"] is None:                # time limit left to its documented default (500)
+            return SlidingTilePuzzle(generator=self._generator(cfg), reward_fn=rf)
         return SlidingTilePuzzle(generator=self._generator(cfg), reward_fn=rf, time_limit=ct["time_limit"])
 
     def make(self, cfg):
@@ -296,7 +302,8 @@ class Adapter(EnvAdapter):
         num_random_moves = -1: not requested and not documented (default constructor)."""
         ct = cfg["ctor"]
         g = ct["gen"]
-        return dict(grid_size=ct["n"], time_limit=ct["time_limit"], reward_fn=ct["reward"],
+        tl = 500 if ct["time_limit"] is None else ct["time_limit"]   # "time_limit: ... default to 500"
+        return dict(grid_size=ct["n"], time_limit=tl, reward_fn=ct["reward"],
                     generator="random_walk" if g == "default" else g,
                     num_random_moves=ct.get("moves", -1))
 
